@@ -11,6 +11,7 @@
    storage; an array of length 0 holds none either).  Pointers inside cells:
      CUser u  ->  array of u.ChannelList, map object of u.Perms
      CChan c  ->  array of c.UserList, array of c.Modes.modes
+     CPtrs l  ->  the structs in its slots (the elements of a listing)
    Time stamps are not modelled (FirstSeen/LastActive/Joined are plain values copied by
    `*nu = *u`).  No proofs here. *)
 Require Import Bytes AMap Names State.
@@ -38,7 +39,8 @@ Inductive cell :=
 | CModes (l : list cmode)            (* backing array of a []CMode *)
 | CPerms (m : amap perms)            (* a UserPerms object = its channels map *)
 | CUser (u : huser)                  (* a User struct *)
-| CChan (c : hchan).                 (* a Channel struct *)
+| CChan (c : hchan)                  (* a Channel struct *)
+| CPtrs (l : list (option nat)).     (* backing array of a []*User / []*Channel handed out by Users() / Channels() (nil slots = None) *)
 
 Definition heap := list cell.
 
@@ -57,6 +59,7 @@ Definition ptrs (c : cell) : list nat :=
   match c with
   | CUser u => sl_arr (hu_chans u) :: match hu_perms u with Some p => [p] | None => [] end
   | CChan c => [sl_arr (hc_users c); sl_arr (hm_modes (hc_modes c))]
+  | CPtrs l => flat_map (fun x => match x with Some o => [o] | None => [] end) l
   | _ => []
   end.
 (* the objects reachable from object o (depth <= 1: arrays and maps hold no pointers) *)
@@ -691,6 +694,17 @@ Definition channels_g (w : world) : res (heap * list nat) :=
   r <- copy_all channel_copy (w_heap w) (List.map snd (hs_channels (w_st w))) ;;
   Ok (fst r, sort_by (name_of (fst r)) (snd r)).
 
+(* the RESULT SLICE of Users() / Channels(): `make([]*User, 0, len(..))` inside the call, so
+   a new backing array every time, holding the pointers to the copies *)
+Definition users_listing_g (w : world) : res (heap * nat * list nat) :=
+  r <- users_g w ;;
+  let '(h', id) := halloc (fst r) (CPtrs (List.map Some (snd r))) in
+  Ok (h', id, snd r).
+Definition channels_listing_g (w : world) : res (heap * nat * list nat) :=
+  r <- channels_g w ;;
+  let '(h', id) := halloc (fst r) (CPtrs (List.map Some (snd r))) in
+  Ok (h', id, snd r).
+
 (* ---------- member getters (state.go): NO copy ----------
    User.Channels(c) has a value receiver: it walks the ChannelList of the object it is
    called on (a snapshot) and returns c.state.lookupChannel(name) -- the tracked
@@ -804,7 +818,9 @@ Inductive cop :=
 | OpTrunc (o : nat) (k : nat)                      (* snap.List = snap.List[:k]  (k <= len) *)
 | OpAlias (o o2 : nat)                             (* snap.List = snap2.List[:n:n]; snap.Perms = snap2.Perms / snap.Modes = snap2.Modes *)
 | OpNilPerms (o : nat)                             (* snap.Perms = nil *)
-| OpApplyModes (o : nat) (flags : str) (args : list str).  (* snap.Modes.Apply(snap.Modes.Parse(flags, args)) *)
+| OpApplyModes (o : nat) (flags : str) (args : list str)   (* snap.Modes.Apply(snap.Modes.Parse(flags, args)) *)
+| OpSlotNil (o : nat) (i : nat)                    (* listing[i] = nil *)
+| OpSlotSwap (o : nat) (i j : nat).                (* listing[i], listing[j] = listing[j], listing[i] *)
 
 Definition list_of (h : heap) (o : nat) : option hslice :=
   match hget h o with
@@ -902,6 +918,20 @@ Definition client_op (g : grow_policy) (h : heap) (op : cop) : heap :=
           match cmodes_apply h (hc_modes c) (parse_modes (hm_cfg (hc_modes c)) flags args true) with
           | Ok (h1, m') => hset h1 o (CChan (hc_set_modes c m'))
           | Panic => h
+          end
+      | _ => h
+      end
+  | OpSlotNil o i =>
+      match hget h o with
+      | Some (CPtrs l) => if Nat.ltb i (length l) then hset h o (CPtrs (upd l i None)) else h
+      | _ => h
+      end
+  | OpSlotSwap o i j =>
+      match hget h o with
+      | Some (CPtrs l) =>
+          match nth_error l i, nth_error l j with
+          | Some x, Some y => hset h o (CPtrs (upd (upd l i y) j x))
+          | _, _ => h
           end
       | _ => h
       end
